@@ -17,10 +17,17 @@ import kanirun as K
 REPLAYS = os.path.join(K.VERIF, 'replays')
 
 
-def _playback_env(crate, path):
+# in-crate harness modules are private to the module that includes them, so each include anchor has
+# its own playback module, selected by its own cfg
+PLAYBACK_CFGS = [('::executors::main::', 'verif_playback_main'), ('::checked_transaction::', 'verif_playback_checked'),
+                 ('', 'verif_playback')]
+
+
+def _playback_env(crate, path, harness=''):
     env = K.env_for(crate)
     env['VERIF_PLAYBACK_FILE'] = path
-    env['RUSTFLAGS'] = (env.get('RUSTFLAGS', '') + ' --cfg verif_playback').strip()
+    cfg = next(c for k, c in PLAYBACK_CFGS if k in harness)
+    env['RUSTFLAGS'] = (env.get('RUSTFLAGS', '') + ' --cfg ' + cfg).strip()
     return env
 
 
@@ -99,14 +106,14 @@ def replay(pid, r, rundir):
     meta['tests'] = names
     meta['path'] = path
     json.dump(meta, open(meta_path, 'w'), indent=1, default=str)
-    ok, why = run_native(crate, path, names)
+    ok, why = run_native(crate, path, names, name)
     meta['reproduced'] = bool(ok)
     meta['native_result'] = why
     json.dump(meta, open(meta_path, 'w'), indent=1, default=str)
     return dict(reproduced=bool(ok), path=path, reason=why)
 
 
-def run_native(crate, path, names):
+def run_native(crate, path, names, harness=''):
     """Run the playback tests natively (dev profile, then release).  Reproduced = the test
     fails (assertion / panic) in at least the dev profile, which is the one Kani models."""
     c = K.CRATES[crate]
@@ -120,7 +127,7 @@ def run_native(crate, path, names):
         if c.get('features'):
             cmd += ['--features', c['features']]
         cmd += ['--', 'kani_concrete_playback']
-        env = _playback_env(crate, path)
+        env = _playback_env(crate, path, harness)
         env['CARGO_TARGET_DIR'] = tdir
         try:
             p = subprocess.run(cmd, cwd=cwd, env=env, stdout=subprocess.PIPE, stderr=subprocess.STDOUT, text=True,
@@ -157,7 +164,7 @@ def rerun(pid, path):
         print('no such replay', path)
         return 2
     meta = json.load(open(meta_path))
-    ok, why = run_native(meta['crate'], path, meta.get('tests', []))
+    ok, why = run_native(meta['crate'], path, meta.get('tests', []), meta.get('harness', ''))
     print(why)
     if ok:
         print('VIOLATION property=%s replay=%s' % (pid, path))
